@@ -693,19 +693,20 @@ class BaseShampooPreconditionerList(
             exception (Exception): The exception to raise.
 
         """
+        # NOTE: The counters live in the local list only; the masked list holds the local indices of the
+        # active preconditioners so that counts survive changes of the gradient selector.
+        local_index = self._masked_failed_amortized_computation_counter_index_list[
+            preconditioner_index
+        ]
         if all(success_tracker):
             # Reset counter for failed amortized computations.
-            self._masked_failed_amortized_computation_counter_list[
-                preconditioner_index
-            ] = 0
+            self._local_failed_amortized_computation_counter_list[local_index] = 0
         else:
             # Increment counter for failed amortized computations.
-            self._masked_failed_amortized_computation_counter_list[
-                preconditioner_index
-            ] += 1
+            self._local_failed_amortized_computation_counter_list[local_index] += 1
             # Raise the exception if the tolerance at the given index is exceeded.
-            failure_counter = self._masked_failed_amortized_computation_counter_list[
-                preconditioner_index
+            failure_counter = self._local_failed_amortized_computation_counter_list[
+                local_index
             ]
             tolerance = (
                 self._preconditioner_config.num_tolerated_failed_amortized_computations
@@ -774,9 +775,9 @@ class BaseShampooPreconditionerList(
         # Masked lists are the list of active preconditioners or values after filtering out gradients with None.
         self._masked_order_list: tuple[int, ...] = self._local_order_list
         self._masked_root_list: tuple[int, ...] = self._local_root_list
-        self._masked_failed_amortized_computation_counter_list: list[int] = (
-            self._local_failed_amortized_computation_counter_list
-        )
+        self._masked_failed_amortized_computation_counter_index_list: tuple[
+            int, ...
+        ] = tuple(range(len(self._local_failed_amortized_computation_counter_list)))
         self._masked_kronecker_factors_list: tuple[
             ShampooKroneckerFactorsListType,
             ...,
@@ -810,13 +811,13 @@ class BaseShampooPreconditionerList(
             self._masked_root_list: tuple[int, ...] = compress_list(  # type: ignore[no-redef]
                 self._local_root_list, local_grad_selector
             )
-            self._masked_failed_amortized_computation_counter_list: list[int] = (  # type: ignore[no-redef]
-                list(
-                    compress_list(
-                        self._local_failed_amortized_computation_counter_list,
-                        local_grad_selector,
-                    )
-                )
+            self._masked_failed_amortized_computation_counter_index_list: tuple[  # type: ignore[no-redef]
+                int, ...
+            ] = compress_list(
+                tuple(
+                    range(len(self._local_failed_amortized_computation_counter_list))
+                ),
+                local_grad_selector,
             )
             self._masked_kronecker_factors_list: tuple[  # type: ignore[no-redef]
                 ShampooKroneckerFactorsListType,
